@@ -80,12 +80,16 @@ impl Uni {
 /// distinguishes raw from compressed-or-encrypted blocks). Otherwise any class, incl. tiny files.
 /// Sizes range from 1 byte to several sectors (the size restriction of round 1 - one 512-byte unit
 /// per file, needed to predict the table overrun - was lifted when c4da446 fixed the overrun).
-fn content(seed: u64, label: &str, compressible: bool) -> Vec<u8> {
+fn content(seed: u64, label: &str, compressible: bool, want_big: bool) -> Vec<u8> {
     let mut rng = Rng::derive(seed, label);
-    let big = match rng.below(40) {
-        0 => rng.range(20_000, 70_000),
-        1..=5 => rng.range(1_500, 6_000),
-        _ => 0,
+    // `want_big` (chosen by TLC): larger than one 16 KiB sector; otherwise always smaller
+    let big = if want_big {
+        rng.range(17_000, 70_000)
+    } else {
+        match rng.below(8) {
+            0 => rng.range(1_500, 6_000),
+            _ => 0,
+        }
     } as usize;
     let (class, len) = if compressible {
         (if rng.below(3) == 0 { "run" } else { "text" }, if big > 0 { big } else { rng.range(64, 1500) as usize })
@@ -136,7 +140,7 @@ fn build_start(path: &Path, c: &Value, uni: &Uni, seed: u64, case: &str) -> Resu
             .listfile_option(if lf { ListfileOption::Generate } else { ListfileOption::None })
             .attributes_option(if at { AttributesOption::GenerateCrc32 } else { AttributesOption::None });
         for n in &init {
-            let data = content(seed, &format!("{case}:init:{n}"), true);
+            let data = content(seed, &format!("{case}:init:{n}"), true, false);
             b = b.add_file_data(data, uni.conc_of(n));
         }
         let mut prng = Rng::derive(seed, &format!("{case}:pad"));
@@ -271,6 +275,18 @@ fn checkpoint(cx: &Ctx, case: &str, path: &Path, uni: &Uni, fin: bool, ck: usize
     cx.trace.ev(json!({"ev":"List","case":case,"res":res,"names":names,"fin":fin,"ck":ck}));
 }
 
+/// MutableArchive::read_file of the subject of the call just made, inside the session.
+fn session_read(cx: &Ctx, case: &str, ma: &mut MutableArchive, n: &str, cn: &str, oi: usize) {
+    cx.op_with(
+        json!({"ev":"SRead","case":case,"oi":oi,"n":n,"tok":"none"}),
+        || match ma.read_file(cn) {
+            Ok(d) => ("ok".to_string(), tok(&d)),
+            Err(e) => (classify::<()>(&Err(e)), "none".to_string()),
+        },
+        |ev, t| ev["tok"] = json!(t),
+    );
+}
+
 fn run_history(cx: &Ctx, c: &Value, dir: &Path, seed: u64) {
     let case = gs(c, "id").to_string();
     // universe and concrete names
@@ -356,7 +372,7 @@ fn run_history(cx: &Ctx, c: &Value, dir: &Path, seed: u64) {
     cx.trace.ev(json!({"ev":"Reset","case":case,"cls":gs(c,"cls"),"ver":gi(c,"ver"),"lf":lf,"at":at,
         "slack":st.slack_bytes,"hsize":st.hsize,"nblocks0":st.nblocks0,"nspecial":st.nspecial - 1,"tail":st.tail,
         "universe":uni.abs,"concrete":uni.conc,"homes":homes,"initial":Value::Object(initial),
-        "devs":devs.join("+"),"preds":c.get("preds").cloned().unwrap_or(json!([])),"toks":Value::Object(toks),"pres":c.get("pres").cloned().unwrap_or(json!([])),"nops":ga(c,"ops").len()}));
+        "devs":devs.join("+"),"preds":c.get("preds").cloned().unwrap_or(json!([])),"toks":Value::Object(toks),"pres":c.get("pres").cloned().unwrap_or(json!([])),"psr":c.get("psr").cloned().unwrap_or(json!([])),"nops":ga(c,"ops").len()}));
 
     let mut m: Option<MutableArchive> = None;
     let open = |cx: &Ctx, m: &mut Option<MutableArchive>, oi: usize| -> bool {
@@ -382,7 +398,8 @@ fn run_history(cx: &Ctx, c: &Value, dir: &Path, seed: u64) {
                 let comp = gs(o, "comp");
                 let enc = gs(o, "enc");
                 let rep = gb(o, "rep");
-                let data = content(seed, &format!("{case}:op{oi}:{n}"), comp != "none");
+                let big = o.get("big").and_then(|x| x.as_bool()).unwrap_or(false);
+                let data = content(seed, &format!("{case}:op{oi}:{n}"), comp != "none", big);
                 let mut opts = AddFileOptions::new()
                     .compression(match comp {
                         "none" => CompressionMethod::None,
@@ -399,23 +416,15 @@ fn run_history(cx: &Ctx, c: &Value, dir: &Path, seed: u64) {
                 let ev = json!({"ev":"Add","case":case,"oi":oi + 1,"okey":format!("o{}", oi + 1),"n":n,"tok":tok(&data),"len":data.len(),"rep":rep,"comp":comp,"enc":enc,"st":no_state()});
                 let ma = m.as_mut().unwrap();
                 let (ares, _) = cx.op_with(ev, || { let r = classify(&ma.add_file_data(&data, &cn, opts)); (r, state_of(ma)) }, |ev, st| ev["st"] = st.clone());
-                if ares == "ok" {
-                    // D-level observation: MutableArchive::read_file of the file just added, inside the session
-                    let ma = m.as_mut().unwrap();
-                    let r = guarded(|| ma.read_file(&cn));
-                    let (res, t) = match &r {
-                        Outcome::Done(Ok(d)) => ("ok".to_string(), tok(d)),
-                        Outcome::Done(e) => (classify(e), "none".to_string()),
-                        _ => ("panic".to_string(), "none".to_string()),
-                    };
-                    cx.trace.ev(json!({"ev":"SRead","case":case,"n":n,"res":res,"tok":t}));
-                }
+                let _ = ares;
+                session_read(cx, &case, m.as_mut().unwrap(), n, &cn, oi + 1);
             }
             "remove" => {
                 let n = gs(o, "n");
                 let cn = uni.conc_of(n).to_string();
                 let ma = m.as_mut().unwrap();
                 cx.op_with(json!({"ev":"Remove","case":case,"oi":oi + 1,"n":n,"st":no_state()}), || { let r = classify(&ma.remove_file(&cn)); (r, state_of(ma)) }, |ev, st| ev["st"] = st.clone());
+                session_read(cx, &case, m.as_mut().unwrap(), n, &cn, oi + 1);
             }
             "rename" => {
                 let a = gs(o, "n");
@@ -423,6 +432,7 @@ fn run_history(cx: &Ctx, c: &Value, dir: &Path, seed: u64) {
                 let (ca, cb) = (uni.conc_of(a).to_string(), uni.conc_of(b).to_string());
                 let ma = m.as_mut().unwrap();
                 cx.op_with(json!({"ev":"Rename","case":case,"oi":oi + 1,"n":a,"m":b,"st":no_state()}), || { let r = classify(&ma.rename_file(&ca, &cb)); (r, state_of(ma)) }, |ev, st| ev["st"] = st.clone());
+                session_read(cx, &case, m.as_mut().unwrap(), b, &cb, oi + 1);
             }
             "compact" => {
                 let ma = m.as_mut().unwrap();
